@@ -339,30 +339,60 @@ func runReplays(repo, harnessDir string, cases []ReplayCase) (map[string]ReplayR
 		ovb, _ := json.Marshal(map[string]interface{}{"Replace": repl})
 		ovFile := filepath.Join(tmp, fmt.Sprintf("overlay_%d.json", n))
 		os.WriteFile(ovFile, ovb, 0o644)
-		caseFile := filepath.Join(tmp, fmt.Sprintf("cases_%d.json", n))
-		cb, _ := json.Marshal(cs)
-		os.WriteFile(caseFile, cb, 0o644)
 		target := "./" + rel
 		if rel == "" {
 			target = "."
 		}
-		cmd := exec.Command("timeout", "600", "go", "test", "-vet=off", "-count=1", "-run", "^TestVerifReplay$", "-overlay", ovFile, "-v", target)
-		cmd.Dir = repo
-		cmd.Env = append(os.Environ(), "VERIF_REPLAY="+caseFile, "GOFLAGS=-mod=mod", "GOPROXY=off", "GOSUMDB=off", "GOTOOLCHAIN=local")
-		b, err := cmd.CombinedOutput()
-		found := 0
-		for _, line := range strings.Split(string(b), "\n") {
-			line = strings.TrimSpace(line)
-			if strings.HasPrefix(line, "VERIF-REPLAY ") {
-				var r ReplayResult
-				if json.Unmarshal([]byte(strings.TrimPrefix(line, "VERIF-REPLAY ")), &r) == nil {
-					out[r.Name] = r
-					found++
+		// all cases of the package run in one test process; if that process dies (a panic in a goroutine the
+		// code under test spawned cannot be recovered by anybody), the case that was running is recorded as
+		// status "panic" and the remaining ones are run again in a fresh process
+		pending := cs
+		for round := 0; len(pending) > 0 && round <= len(cs); round++ {
+			caseFile := filepath.Join(tmp, fmt.Sprintf("cases_%d_%d.json", n, round))
+			cb, _ := json.Marshal(pending)
+			os.WriteFile(caseFile, cb, 0o644)
+			cmd := exec.Command("timeout", "600", "go", "test", "-vet=off", "-count=1", "-run", "^TestVerifReplay$", "-overlay", ovFile, "-v", target)
+			cmd.Dir = repo
+			cmd.Env = append(os.Environ(), "VERIF_REPLAY="+caseFile, "GOFLAGS=-mod=mod", "GOPROXY=off", "GOSUMDB=off", "GOTOOLCHAIN=local")
+			b, err := cmd.CombinedOutput()
+			found := 0
+			for _, line := range strings.Split(string(b), "\n") {
+				line = strings.TrimSpace(line)
+				if strings.HasPrefix(line, "VERIF-REPLAY ") {
+					var r ReplayResult
+					if json.Unmarshal([]byte(strings.TrimPrefix(line, "VERIF-REPLAY ")), &r) == nil {
+						out[r.Name] = r
+						found++
+					}
 				}
 			}
-		}
-		if found < len(cs) {
-			firstErr = fmt.Errorf("replay of %s produced %d/%d results: %v\n%s", pkg, found, len(cs), err, tail(string(b), 3000))
+			if found >= len(pending) {
+				break
+			}
+			crashed := strings.Contains(string(b), "\npanic: ") || strings.Contains(string(b), "\nfatal error: ")
+			if !crashed {
+				firstErr = fmt.Errorf("replay of %s produced %d/%d results: %v\n%s", pkg, found, len(pending), err, tail(string(b), 3000))
+				break
+			}
+			// cases run in order: the first one without a result is the one that killed the process
+			msg := "process crashed"
+			if i := strings.Index(string(b), "\npanic: "); i >= 0 {
+				msg = strings.SplitN(string(b)[i+1:], "\n", 2)[0]
+			}
+			var rest []ReplayCase
+			marked := false
+			for _, c := range pending {
+				if _, ok := out[c.Name]; ok {
+					continue
+				}
+				if !marked {
+					out[c.Name] = ReplayResult{Name: c.Name, Status: "panic", Panic: "unrecoverable (test process died): " + msg}
+					marked = true
+					continue
+				}
+				rest = append(rest, c)
+			}
+			pending = rest
 		}
 	}
 	return out, firstErr
@@ -434,12 +464,16 @@ func writeEvidence(path, id, tier string, seed int, spec *PropSpec, eng *Engine,
 	labels := map[string]*LabelStats{}
 	reach := map[string]int{}
 	overreads, goStmts := 0, 0
+	goSites := map[string]int{}
 	for _, r := range reports {
 		states += r.Paths
 		transitions += r.Decisions
 		nontriv += r.Nontrivial
 		overreads += r.Overreads
 		goStmts += r.GoStatements
+		for k, v := range r.GoSites {
+			goSites[k] += v
+		}
 		for l, s := range r.Labels {
 			t := labels[l]
 			if t == nil {
@@ -525,6 +559,7 @@ func writeEvidence(path, id, tier string, seed int, spec *PropSpec, eng *Engine,
 			"solver_time_s":                 solverTime,
 			"unsafe_overread_paths":         overreads,
 			"go_statements_not_executed":    goStmts,
+			"go_statement_sites":            goSites,
 			"static_checks":                 staticNotes,
 			"inconclusive":                  inconclusive,
 			"engine":                        "gosym: symbolic execution of go/ssa of /repo's working tree (rebuilt this run), SMT back ends z3 4.8.12 / cvc5 1.0 / z3 5.1",
